@@ -74,4 +74,7 @@ theorem writerRun_reports (f : LimitFacts) (hg : f.writerGuarded = true) (limit 
     simp only [writerRun, hg, if_true, List.flatMap_cons]
     rw [← ih]
 
+/-- What the peer can tell a frame is about: the id in the header it parses. -/
+def wireId (bs : Bytes) : Nat := (Header.parse bs).id
+
 end Repe
